@@ -146,6 +146,11 @@ func (el *eventloop) read(c *conn) error {
 
 func (el *eventloop) cread(c *conn) error {
 	for {
+		if c.closing {
+			// the client has quit, whatever follows is ignored
+			c.resetBuffer()
+			return nil
+		}
 		r, err := c.cread()
 		if err == codec.ErrInvalidResp {
 			logging.Warnf("[%dc] client closed because of invalid resp", c.Fd())
@@ -157,7 +162,18 @@ func (el *eventloop) cread(c *conn) error {
 		}
 
 		out, action := el.eventHandler.OnCReact(r, c)
-		if out != nil {
+		if out != nil && !c.inMsgQueue.Empty() {
+			// earlier requests are still in flight, so the reply produced by the proxy itself
+			// has to wait for its turn in the queue
+			r.Body = nil
+			r.RspBody = append(r.RspBody[:0], out...)
+			r.Done = true
+			c.EnqueueInMsg(r)
+			if action == Close {
+				c.closing = true
+				action = None
+			}
+		} else if out != nil {
 			// Encode data and try to write it back to the peer, this attempt is based on a fact:
 			// the peer socket waits for the response data after sending request data to the server,
 			// which makes the peer socket writable.
@@ -287,6 +303,10 @@ func (el *eventloop) flushClient(c *conn) {
 	// release Msg
 	for ; done > 0; done-- {
 		MsgPool.Put(c.dequeueInMsg())
+	}
+
+	if c.closing && c.inMsgQueue.Empty() {
+		_ = el.closeConn(c, nil, ProxyEof)
 	}
 }
 
